@@ -183,6 +183,37 @@ def NoRenameFrom : GoMap Nat Ep → List Op → Prop
 
 def NoRename (ops : List Op) : Prop := NoRenameFrom [] ops
 
+/-! ### Histories of batches (several updates, one CompleteDeferredWork) -/
+
+abbrev Batch := List (Nat × Option Ep)
+
+def applyEntry (l : GoMap Nat Ep) (p : Nat × Option Ep) : GoMap Nat Ep :=
+  match p.2 with
+  | some w => set l p.1 w
+  | none => del l p.1
+
+/-- The live endpoints after a batch: the last message of every id is applied. -/
+def liveB (l : GoMap Nat Ep) (us : Batch) : GoMap Nat Ep := (mkPending us).foldl applyEntry l
+
+def liveBs (bs : List Batch) : GoMap Nat Ep := bs.foldl liveB []
+
+/-- `m'` can be reached from `m` by the batches `bs` (each batch processed in ANY order). -/
+def ReachFrom : Mgr → List Batch → Mgr → Prop
+  | m, [], m' => m' = m
+  | m, us :: r, m' => ∃ m1, m1 ∈ m.batch us ∧ ReachFrom m1 r m'
+
+/-- No batch renames an endpoint that is live when the batch starts (the manager only sees the last
+message of every id, so "delete + re-create under another interface name" inside one batch counts). -/
+def NoRenameBsFrom : GoMap Nat Ep → List Batch → Prop
+  | _, [] => True
+  | l, us :: r =>
+    (∀ id w, get (mkPending us) id = some (some w) → ∀ e, get l id = some e → e.name = w.name) ∧
+    NoRenameBsFrom (liveB l us) r
+
+def Op.toBatch : Op → Batch
+  | .update id w => [(id, some w)]
+  | .remove id => [(id, none)]
+
 /-- The preferred endpoint for interface `name`: the smallest live id claiming it (the same
 minimum scan as `bestShadowed`, over the live endpoints). -/
 def preferred (l : GoMap Nat Ep) (name : Nat) : Option (Nat × Ep) :=
